@@ -452,6 +452,8 @@ pub fn cmd_fuzz(a: &Args) {
 	}
 	let bases = bases.into_inner().unwrap();
 	let next = std::sync::atomic::AtomicUsize::new(0);
+	// a hung read leaves a spinning thread behind: after a few hangs (already reported) stop exploring
+	let hangs = std::sync::atomic::AtomicUsize::new(0);
 	std::thread::scope(|s| {
 		for _ in 0..threads.max(1) {
 			s.spawn(|| {
@@ -468,9 +470,15 @@ pub fn cmd_fuzz(a: &Args) {
 						check_faults(base, name, &sink);
 					}
 					for (what, m) in mutants_of(base, &mut r, nrandom) {
+						if hangs.load(std::sync::atomic::Ordering::SeqCst) >= 3 {
+							return;
+						}
 						sink.count(fnv(&m), true);
 						let m = std::sync::Arc::new(m);
 						if let Some((kind, detail)) = all_reads(m.clone(), &mut dog, deadline) {
+							if kind == "hang" {
+								hangs.fetch_add(1, std::sync::atomic::Ordering::SeqCst);
+							}
 							let fam = what.split(|c| c == '=' || c == '[').next().unwrap_or(&what).to_string();
 							let cls = format!("{},mutation:{},{}", name.split(':').next().unwrap(), fam, if kind == "panic" { panic_site(&detail) } else { String::new() });
 							let v = viol("file_adversary", &cls, &kind, format!("{} on {}: {}", what, name, detail));
